@@ -12,7 +12,7 @@ import vlib
 from vlib import cstring, clist
 from props import storeapi_lib as L
 
-PLAIN_EXT = ("", ".yaml")   # names on which fileLocation, craftFilePath and find agree
+PLAIN_EXT = ("", ".yaml")
 
 
 def ext_of(name):
@@ -22,6 +22,8 @@ def ext_of(name):
 
 
 def dotted(name):
+    """Names with a foreign extension (the F18c class, repaired by fe0ec16).  Used only to LABEL a violation: since
+    the repair no monitor makes an exception for these names."""
     return ext_of(name) not in PLAIN_EXT
 
 
@@ -78,7 +80,7 @@ def monitor_op(op, d0, d1, texts, dags_dir):
             fail("refused create left a file behind", **{"class": "create-result"})
     elif kind == "save":
         valid = texts[op["text"]]["load"]   # independent oracle: the same bytes through dag.LoadWithoutEval
-        if ok and op.get("loads") is False and not dotted(op["name"]):   # (a.b is looked up at a.b.yaml: F18c)
+        if ok and op.get("loads") is False:
             fail("after an accepted save the stored definition does not load any more (%s)" % op.get("load_err", "")[:120],
                  **{"class": "save-invalid"})
         if not hist_same or not flags_same:
@@ -115,7 +117,7 @@ def monitor_op(op, d0, d1, texts, dags_dir):
                 src, dst = next(iter(removed)), next(iter(added | changed))
                 if d1.defs[dst] != d0.defs[src]:
                     fail("renamed definition does not hold the old bytes", **{"class": "rename-bytes"})
-            if lo and ln and lo != ln and not dotted(op["name"]) and not dotted(op["new"]):
+            if lo and ln and lo != ln:
                 fresh = not changed and not d0.recent.get(ln)
                 if not subseq(d0.recent.get(lo, ()), d1.recent.get(ln, ())) or (fresh and d1.recent.get(ln, ()) != d0.recent.get(lo, ())):
                     fail("history of the old name is not what the new name answers after the rename", **{"class": "rename-history"})
@@ -229,21 +231,6 @@ def model_check(ctx, cases, texts):
         for (k, i, code) in r:
             bad.append((sh[k], i, code))
     return bad
-
-
-def names_premise(ctx, names):
-    """name_okb (the per-name premise of the rename / delete theorems) on the generator's names: true exactly
-    for the names without a foreign extension."""
-    txt = ("From Coq Require Import List String.\nImport ListNotations.\nOpen Scope string_scope.\n"
-           "From BD.DagStore Require Import Model Check.\n"
-           "Definition M := Eval vm_compute in map (fun b : bool => if b then 1 else 0) (names_ok %s %s).\nPrint M.\n"
-           % (cstring(L.MDIR), clist([cstring(n) for n in names])))
-    rc, out, dt = vlib.coq_eval(ctx.scratch, "names_c18", txt)
-    r = vlib.coq_list_result(out, "M") if rc == 0 else None
-    if r is None or len(r) != len(names):
-        ctx.fail("correspondence", "name_okb could not be evaluated", {"log": out[-1500:]})
-        return {}
-    return dict(zip(names, [bool(x) for x in r]))
 
 
 # ---------------------------------------------------------------------------------------------
@@ -525,11 +512,6 @@ def run(ctx, replay_cases=None):
         ctx.fail("correspondence", "model and implementation differ after operation %d (%s %s): %s" %
                  (i, o["op"], o.get("name", ""), CODES.get(code, code)),
                  dict(slim(c, i), failing_op=i, impl_result=o["res"], impl_err=o.get("err"), impl_defs=o["dump"]["defs"]))
-    nm = names_premise(ctx, head["names"])
-    for n, okb in nm.items():
-        if okb == dotted(n):
-            ctx.fail("correspondence", "name_okb (premise of the rename/delete theorems) does not coincide with 'no foreign "
-                     "extension' on a generator name", {"name": n, "name_okb": okb})
 
     # ---- save-crash ------------------------------------------------------------------------
     pairs = [("T1", "T2"), ("T2", "T3"), ("T1", "T6"), ("T5", "T1"), ("T1", "T5"), ("T2", "T4"), ("T1", "T9")]
@@ -566,7 +548,7 @@ def run(ctx, replay_cases=None):
     ctx.cov["sequences"] = len(cases)
     ctx.cov["save_crash_runs"] = len(recs)
     ctx.cov["save_crash_left"] = ckinds
-    ctx.cov["names"] = {n: ("plain" if nm.get(n) else "foreign-extension") for n in head["names"]}
+    ctx.cov["names"] = head["names"]
     ctx.cov["texts"] = {t["id"]: {k: t[k] for k in ("kind", "len", "valid", "meta", "graph")} for t in texts.values()}
     ctx.cov["monitor_classes_seen"] = reported
     for c in good[:1] + good[-1:]:
@@ -584,7 +566,7 @@ def run(ctx, replay_cases=None):
     ]
     ctx.assumptions = ["names are single path elements (no /), not empty, . or ..; the process working directory holds no definition",
                        "run start stamps pairwise distinct (same-second ordering is C06's finding F6a)",
-                       "rename/delete theorems: name_okb for the names involved (no foreign extension); refuted otherwise"]
+                       "the DAGs directory is an absolute path"]
     if ctx.tier == "thorough":
         ctx.coqchk()
 
